@@ -1373,6 +1373,67 @@ def check_input_prefix(run, exe, scratch):
 
 
 # ==========================================================================================
+# two shared ABF biases on one variable (their rounds share the channels), then one is deleted
+# ==========================================================================================
+
+def check_two_biases(run, exe, scratch):
+    import shutil as _sh
+    nb = 3
+    for n, named in ((3, True), (2, False)):
+        run.count("two-biases:%d:%s" % (n, named), True)
+        run.dist("abf:two-biases")
+        dirs = []
+        for i in range(n):
+            d = os.path.join(scratch, "tb%d" % i)
+            _sh.rmtree(d, ignore_errors=True)
+            os.makedirs(d)
+            dirs.append(d)
+        # without names the biases are called abf1 and abf2
+        na, nbn = ("a", "b") if named else ("abf1", "abf2")
+        conf = scen.abf_conf({"nd": 1, "nbins": [nb], "freq": 2})
+        k = conf.index("abf {")
+        first = [x for x in conf[k:] if named or not x.strip().startswith("name ")]
+        second = [("  name b" if x.strip() == "name a" else "  sharedFreq 3" if x.strip().startswith("sharedFreq") else x) for x in conf[k:]]
+        second = [x for x in second if named or not x.strip().startswith("name ")]
+        setup = ["natoms 1", "samestep 1", "includecv 1", "new", "config EOF"] + conf[:k] + first + second + ["EOF", "show cv 0 energy 0 bias 0 atomf 0"]
+
+        def union(t_last):
+            c = [0] * nb
+            for w in range(n):
+                for t in range(1, t_last + 1):
+                    c[(w + t) % nb] += 1
+            return c
+        try:
+            with W.Team(exe, n, dirs, timeout_ms=3000) as T:
+                r0 = T.all_do(setup, 20)
+                if not all(any("CONFIG err=ok" in x and "nbias=2" in x for x in r) for r in r0):
+                    raise W.WalkerTimeout("configuration failed: %s" % r0[0])
+                seen = {}
+                for t in range(13):
+                    T.all_do(lambda i: ["pos 1 0 0 %s" % float((i + t) % nb + 0.5).hex(), "eforce 1 0 0 0x1p+0", "step"], 20)
+                    if t == 6:
+                        seen["b6"] = [scen.parse_shared(r) for r in T.all_do(["dumpshared %s" % nbn], 20)]
+                        seen["a6"] = [scen.parse_shared(r) for r in T.all_do(["dumpshared %s" % na], 20)]
+                    if t == 7:
+                        seen["del"] = T.all_do(["script cv bias %s delete" % nbn], 20)
+                seen["a12"] = [scen.parse_shared(r) for r in T.all_do(["dumpshared %s" % na], 20)]
+                stats = T.all_do(["repstat"], 20)
+        except W.WalkerTimeout as e:
+            run.violation("abf:two-biases-hang", "two shared ABF biases on one variable (%d walkers): a walker stopped answering (%s)" % (n, str(e)[:160]),
+                          {"kind": "two-biases", "n": n, "named": named})
+            continue
+        bad = []
+        for key, t_last in (("b6", 5), ("a6", 5), ("a12", 11)):
+            for w, d in enumerate(seen[key]):
+                if d is None or d["lcnt"] != union(t_last):
+                    bad.append((key, w, d and d["lcnt"], union(t_last)))
+        if bad or not all(any("errors=0" in x for x in s_) for s_ in stats):
+            run.violation("abf:two-biases-mixed-up", "two shared ABF biases (%s every 2 steps, %s every 3, the second deleted after step 7) on %d walkers: snapshot counts "
+                          "(bias at step, walker, found, union of what was fed) %s; %s" % (na, nbn, n, bad[:3], [x for s_ in stats for x in s_][:2]),
+                          {"kind": "two-biases", "n": n, "named": named})
+
+
+# ==========================================================================================
 # an exchange round that a dying walker interrupts, at every point of the round
 # ==========================================================================================
 
@@ -1590,6 +1651,7 @@ def check(run):
         check_different_grids(run, exe, scratch)
         check_rejected_configs(run, exe, scratch)
         check_input_prefix(run, exe, scratch)
+        check_two_biases(run, exe, scratch)
         run_cases(run, exe, model, load_corpus(), scratch)
         na, nm, nv, nr = (60, 45, 30, 12) if quick else (1500, 1200, 800, 300)
         big = not quick      # more than four walkers: thorough tier only
